@@ -147,6 +147,7 @@ pub struct Stats {
     pub q_memo: u64,
     pub solver_s: f64,
     pub nontrivial_paths: u64,
+    pub cases: u64,
     pub truncated: bool,
 }
 
@@ -1250,6 +1251,22 @@ pub fn prove_eq(label: &str, a: Sym, b: Sym) -> Proof {
         return Proof::Syntactic;
     }
     prove(label, eq(a, b))
+}
+
+/// Count one distinct structural case (shape/pattern/operation) handled inside a path.
+pub fn count_case() { with(|e| e.stats.cases += 1); }
+
+/// Cheap obligation for data-movement checks: `cond` was evaluated by the harness on
+/// term identities / concrete indices.  A false condition becomes a failed obligation
+/// (label built lazily) that goes through the normal candidate/replay route.
+pub fn check_that(cond: bool, label: impl FnOnce() -> String) -> bool {
+    if cond {
+        with(|e| { e.stats.obligations += 1; e.stats.discharged_syntactic += 1; });
+        true
+    } else {
+        prove(&label(), B::False);
+        false
+    }
 }
 
 /// Vacuity control: `b` is false for some input on this path, i.e. `PC /\ not b` must be sat.
